@@ -58,6 +58,17 @@ CLAIMS = {
              "Correspondence on datasets full of 0, '', None, False, [], ().",
         note=BASE_NOTE,
         tech="Lean 4 proof (frame lemma over the evaluator) + differential correspondence on falsy datasets"),
+    'C20': dict(
+        text="Transliterated SeenSet/IndexedCache trie (Cache.lean). For ALL histories of inserts (full/partial bindings, "
+             "overwrites) and clears: c20_entries_spec (the trie holds exactly the last output per binding, no binding twice), "
+             "c20_check (coverage check <-> some stored binding contained in the lookup), c20_clear, and "
+             "c20_retrieve_uniform_partial (on prefix-uniform tries retrieval = all agreeing entries, each once, merged, nothing "
+             "else; retr_uniform by induction on the key list). The unrestricted statement is false of the code: "
+             "c20_wildcard_witness (by decide) = known finding C20-F1. Correspondence: real IndexedCache driven directly, every "
+             "lookup after every operation.",
+        note=BASE_NOTE + "Empty-binding insert/check are modelled but outside the statement. Inside the finding's scope a case is "
+             "attributed to C20-F1 only if the model returns exactly what the implementation returns.",
+        tech="Lean 4 proof (invariants by induction over operation histories, induction on the key list) + exhaustive-lookup differential correspondence"),
 }
 
 ALL = ['C%02d' % i for i in range(1, 21)]
